@@ -12,10 +12,10 @@ import (
 
 func init() {
 	register(&ruleSet{
-		id:    "C18",
-		title: "printf emits exactly the format, each directive replaced and padded",
-		run:   runC18,
-		decided: "printf performs exactly one write to the output, of the locally built string, and no error return is reachable after it nor any write before it (so a failing printf writes nothing); the directive table (%% -> '%', %s -> a checked string argument, %f -> a checked number argument, %v -> any argument rendered at top level under an explicit argument-count guard, anything else -> error; a trailing % or width -> error before the byte is read); literal bytes are copied unchanged; padding: the pad count is |width| - len(rendering), computed only under len(rendering) < |width| (never negative, never truncating), on the left for a positive and on the right for a negative width, pad byte '0' exactly when the width text starts with '0'; the width limit test precedes every use of the width; arguments are consumed in order, one per directive.",
+		id:         "C18",
+		title:      "printf emits exactly the format, each directive replaced and padded",
+		run:        runC18,
+		decided:    "printf performs exactly one write to the output, of the locally built string, and no error return is reachable after it nor any write before it (so a failing printf writes nothing); the directive table (%% -> '%', %s -> a checked string argument, %f -> a checked number argument, %v -> any argument rendered at top level under an explicit argument-count guard, anything else -> error; a trailing % or width -> error before the byte is read); literal bytes are copied unchanged; padding: the pad count is |width| - len(rendering), computed only under len(rendering) < |width| (never negative, never truncating), on the left for a positive and on the right for a negative width, pad byte '0' exactly when the width text starts with '0'; the width limit test precedes every use of the width; arguments are consumed in order, one per directive.",
 		notDecided: "byte-exact output for every format string (the scanner's index arithmetic is only checked through its guards).",
 	})
 }
@@ -94,7 +94,7 @@ func runC18(c *Ctx) {
 	}
 	// builder writes: what goes into the output string
 	c.note("R2 directive-table: builder writes and argument checks with the byte tests that guard them: a byte != '%%' is copied; after '%%' (and an optional width): '%%' -> WriteByte('%%'); 's' -> checkArg(args, argIndex, ValueStr); 'f' -> checkArg(args, argIndex, ValueNum); 'v' -> PrettyString(args[argIndex], false) under len(args)-1 >= argIndex; otherwise the `unknown format code` error. argIndex starts at 1 and is incremented once per consumed argument.")
-	fmtByte := "*lang.checkArg(args, 0, ValueStr)#0.Str[φi]"
+	fmtByte := "*lang.checkArg(args, 0, ValueStr)#0.Str[φint0]"
 	type expect struct {
 		text   string
 		guards []string
@@ -102,10 +102,10 @@ func runC18(c *Ctx) {
 	wantCalls := []expect{
 		{"(*strings.Builder).WriteByte(&strings.Builder{}, " + fmtByte + ")", []string{fmtByte + " != 37"}},
 		{"(*strings.Builder).WriteByte(&strings.Builder{}, 37)", []string{fmtByte + " == 37"}},
-		{"lang.checkArg(args, φargIndex, ValueStr)", []string{fmtByte + " == 115"}},
-		{"lang.checkArg(args, φargIndex, ValueNum)", []string{fmtByte + " == 102"}},
-		{"(*lang.Value).PrettyString(args[φargIndex], false)", []string{fmtByte + " == 118", "(len(args) - 1) >= φargIndex"}},
-		{"(*strings.Builder).WriteString(&strings.Builder{}, (*lang.Value).PrettyString(args[φargIndex], false))", []string{fmtByte + " == 118"}},
+		{"lang.checkArg(args, φint1, ValueStr)", []string{fmtByte + " == 115"}},
+		{"lang.checkArg(args, φint1, ValueNum)", []string{fmtByte + " == 102"}},
+		{"(*lang.Value).PrettyString(args[φint1], false)", []string{fmtByte + " == 118", "(len(args) - 1) >= φint1"}},
+		{"(*strings.Builder).WriteString(&strings.Builder{}, (*lang.Value).PrettyString(args[φint1], false))", []string{fmtByte + " == 118"}},
 	}
 	r := &renderer{p: p, noExpand: true, depth: 2}
 	got := map[string][]map[string]bool{}
@@ -121,7 +121,7 @@ func runC18(c *Ctx) {
 	// same switch, whose subject is fmtStr[i] with i = φi+1 or numEnd; the renderer names the
 	// loop variable, so the guards are compared modulo the index expression
 	norm := func(s string) string {
-		return regexp.MustCompile(`\.Str\[[^\]]*\]`).ReplaceAllString(s, ".Str[φi]")
+		return regexp.MustCompile(`\.Str\[[^\]]*\]`).ReplaceAllString(s, ".Str[φint0]")
 	}
 	for _, e := range wantCalls {
 		found := false
@@ -184,10 +184,10 @@ func runC18(c *Ctx) {
 	// argIndex: starts at 1, +1 per directive that consumes an argument
 	okIdx := false
 	allInstrs(pf, func(in ssa.Instruction) {
-		if phi, ok := in.(*ssa.Phi); ok && phi.Comment == "argIndex" && loopCarried(phi) {
+		if phi, ok := in.(*ssa.Phi); ok && loopCarried(phi) && loopVarName(phi) == "int1" {
 			s := p.Render(phi)
-			if strings.HasPrefix(s, "φargIndex⟨1 | ") || strings.HasSuffix(s, " | 1⟩") {
-				okIdx = strings.Contains(s, "(φargIndex + 1)") && !strings.Contains(s, "+ 2") && !strings.Contains(s, "- 1")
+			if strings.HasPrefix(s, "φint1⟨1 | ") || strings.HasSuffix(s, " | 1⟩") {
+				okIdx = strings.Contains(s, "(φint1 + 1)") && !strings.Contains(s, "+ 2") && !strings.Contains(s, "- 1")
 			}
 		}
 	})
@@ -197,7 +197,7 @@ func runC18(c *Ctx) {
 	// R3 padding-guards
 	c.note("R3 padding-guards: every strings.Repeat(pad, n) in printf has n = width - len(s) under the facts width > 0 and len(s) < width (left padding: Repeat + s), or n = -width - len(s) under width < 0 and len(s) < -width (right padding: s + Repeat); the pad string is \"0\" exactly when the width text's first byte is '0', else \" \".")
 	nRep := 0
-	width := "phi(0 | int(strconv.ParseInt(*lang.checkArg(args, 0, ValueStr)#0.Str[(φi + 1):φnumEnd], 10, 64)#0))"
+	width := "phi(0 | int(strconv.ParseInt(*lang.checkArg(args, 0, ValueStr)#0.Str[(φint0 + 1):φint], 10, 64)#0))"
 	for _, call := range callsIn(pf) {
 		f := call.Common().StaticCallee()
 		if f == nil || f.String() != "strings.Repeat" {
@@ -210,7 +210,7 @@ func runC18(c *Ctx) {
 		// which argument string?
 		var s string
 		for _, tag := range []string{"ValueStr", "ValueNum"} {
-			cand := "(*lang.Value).String(lang.checkArg(args, φargIndex, " + tag + ")#0)"
+			cand := "(*lang.Value).String(lang.checkArg(args, φint1, " + tag + ")#0)"
 			if strings.Contains(cnt, cand) {
 				s = cand
 			}
@@ -245,13 +245,13 @@ func runC18(c *Ctx) {
 	zeroOK := false
 	allInstrs(pf, func(in ssa.Instruction) {
 		phi, ok := in.(*ssa.Phi)
-		if !ok || phi.Comment != "padChar" {
+		if !ok || phi.Type().String() != "string" {
 			return
 		}
 		for i, e := range phi.Edges {
 			if s, ok := constString(e); ok && s == "0" {
 				for k := range guardsAtEdge(p, F, phi.Block().Preds[i], phi.Block()) {
-					if strings.HasSuffix(k, "[0] == 48") && strings.Contains(k, ".Str[(φi + 1):φnumEnd]") {
+					if strings.HasSuffix(k, "[0] == 48") && strings.Contains(k, ".Str[(φint0 + 1):φint]") {
 						zeroOK = true
 					}
 				}
@@ -285,7 +285,17 @@ func widthLimit(c *Ctx, rule string) {
 	found := false
 	allInstrs(pf, func(in ssa.Instruction) {
 		phi, ok := in.(*ssa.Phi)
-		if !ok || phi.Comment != "widthSpec" {
+		if !ok || phi.Type().String() != "int" || loopCarried(phi) {
+			return
+		}
+		// the width variable: merged from the constant 0 and the converted ParseInt result
+		isWidth := false
+		for _, e := range phi.Edges {
+			if strings.HasPrefix(p.RenderShort(e), "int(strconv.ParseInt(") {
+				isWidth = true
+			}
+		}
+		if !isWidth {
 			return
 		}
 		found = true
